@@ -139,6 +139,8 @@ def gen_cases(rng, v, spec, n):
             a = spec["fix"](rng, a)
             if a is None:
                 continue
+        if any(k in ("d", "f") and not math.isfinite(x) for k, x in zip(kinds(spec, a), a)):
+            continue
         out.append(a)
     return out
 
